@@ -309,6 +309,23 @@ theorem C19_play_fifo {μ : Type} (cthr sthr : Int) (hsame : (cthr ≥ 0) ↔ (s
     (p.c2s = [] → p.sRecv = p.cSent) ∧ (p.s2c = [] → p.cRecv = p.sSent) :=
   Lemmas.Gate.play_fifo cthr sthr hsame evs
 
+open Gate in
+/-- the same at EVERY moment of every interleaving, not only once the channels are drained: what a side has
+received so far is a prefix of what the other has sent so far — the i-th packet received is the i-th packet sent;
+nothing is received that was not sent, nothing twice, nothing out of order -/
+theorem C19_play_prefix {μ : Type} (cthr sthr : Int) (hsame : (cthr ≥ 0) ↔ (sthr ≥ 0)) (evs : List (PlayEv μ)) :
+    let p := playRun ({ cthr := cthr, sthr := sthr } : Play μ) evs
+    p.sRecv <+: p.cSent ∧ p.cRecv <+: p.sSent ∧
+    (∀ i, i < p.sRecv.length → p.sRecv[i]? = p.cSent[i]?) ∧
+    (∀ i, i < p.cRecv.length → p.cRecv[i]? = p.sSent[i]?) := by
+  intro p
+  obtain ⟨_, h1, h2, _, _⟩ := C19_play_fifo cthr sthr hsame evs
+  refine ⟨⟨_, h1⟩, ⟨_, h2⟩, fun i hi => ?_, fun i hi => ?_⟩
+  · show p.sRecv[i]? = p.cSent[i]?
+    rw [← h1, List.getElem?_append_left hi]
+  · show p.cRecv[i]? = p.sSent[i]?
+    rw [← h2, List.getElem?_append_left hi]
+
 /-- what each side has sent is exactly the sequence of its write events -/
 theorem C19_play_sent {μ : Type} (cthr sthr : Int) (evs : List (Gate.PlayEv μ)) :
     let p := Gate.playRun ({ cthr := cthr, sthr := sthr } : Gate.Play μ) evs
